@@ -787,6 +787,45 @@ def run(ctx):
                 ctx.fail("client-mix-wrong-bytes:read", desc, "designed program returned wrong bytes")
         finally:
             sess.close()
+    # listdir_iter: read-ahead rounds (read_aheads 1..3, directories from empty to several rounds, sizes around the
+    # 16-entries-per-answer and 16*read_aheads boundaries); the entries yielded must be the directory's, exactly
+    ldi_reqs, ldi_want = [], []
+    for li in range(40 if ctx.thorough else 14):
+        k = rng.choice([1, 2, 3])
+        n = rng.choice([0, 1, 15, 16, 17, 16 * k - 1, 16 * k, 16 * k + 1, 2 * 16 * k, 16 * k * 3 + rng.randrange(0, 20),
+                        rng.randrange(0, 150)])
+        if li == 0:
+            k, n = 2, 40
+        sess = L.ThreadedSession()
+        desc = {"listdir_iter": True, "read_aheads": k, "entries": n}
+        try:
+            sess.fs.dirs.add("/big")
+            names = ["e%04d" % j for j in range(n)]
+            for nm in names:
+                sess.fs.files["/big/" + nm] = bytearray()
+            r = sess.call(lambda: [a.filename for a in sess.client.listdir_iter("/big", read_aheads=k)])
+            ctx.case(("listdir_iter", k, n), n > 16 * k)
+            ctx.dist("client-listdir_iter")
+            if r[0] == "hang":
+                ctx.fail("client-hangs:listdir_iter", desc, "listdir_iter never returns although the server answered every "
+                         "READDIR exactly once (it waits for more answers than it has requests outstanding)")
+            elif r[0] == "exc":
+                ctx.fail("listdir_iter-raises:" + L.exc_kind(r[1]), desc, repr(r[1]))
+            elif sorted(r[1]) != names:
+                extra = [x for x in r[1] if x not in names][:3]
+                ctx.fail("listdir_iter-wrong-entries", desc, "yielded %d names for %d entries; not in the directory: %r"
+                         % (len(r[1]), n, extra))
+            ldi_reqs.append("ldi %d 16 %d" % (k, n))
+            ldi_want.append((desc, r))
+        finally:
+            sess.close()
+    ldi_rep = ctx.driver("C30", ldi_reqs)
+    if ldi_rep is not None:
+        for rep, (desc, r) in zip(ldi_rep, ldi_want):
+            real = "hang" if r[0] == "hang" else ("done %d" % len(r[1]) if r[0] == "ok" else "raised")
+            if rep.split(" ")[0] != real.split(" ")[0] or (real.startswith("done") and rep != real):
+                ctx.disagree("listdir_iter-rounds", desc, rep, real)
+
     # back-pressure: more queued requests than the server's channel window holds, then read
     for _ in range(2 if ctx.thorough else 1):
         desc, failure = backpressure_case(ctx)
@@ -822,7 +861,9 @@ META = {
               "source_branches_emit_valid_types), and the model stays within that table. Client: no call ever waits "
               "with nothing outstanding, for every program mixing pipelined writes, plain writes, other requests and "
               "closes, with answers overtaking each other (client_never_waits_forever over Op.deliver; the code matches a "
-              "write's answer by membership in _reqs: source_write_status_matched_by_id, AST); under channel back-pressure, with the client lock and the two flow-controlled "
+              "write's answer by membership in _reqs: source_write_status_matched_by_id, AST); listdir_iter's read-ahead rounds end "
+              "and yield every entry exactly once for every read_aheads >= 1 (listdir_iter_complete, given the AST fact "
+              "that the batch list is reset inside the round loop); under channel back-pressure, with the client lock and the two flow-controlled "
               "directions as resources, no reachable state is stuck before everything is done and every step uses up work "
               "(client_never_blocks_under_backpressure, backpressure_steps_decrease_work) — given the source fact, read "
               "from the AST each run, that _async_request sends the packet outside the _lock region "
